@@ -53,9 +53,9 @@ var c04Data *eng.Kind[DataNumCase]
 
 func init() {
 	c := eng.Register(&eng.Check{
-		ID:    "C04",
-		Title: "Decimal arithmetic is exact",
-		Rule: "operand grid of 880 decimals (40 coefficients incl. 15/16/17/33/34-digit patterns and powers of two around 2^53/2^63/2^64, 11 exponents within +-30, both signs): every ordered pair under + - * / %, every left- and right-nested chain of three operations over a sub-grid, float64/int/int64 data values (short and long binary expansions, beyond 2^53) alone, against the same literal and pairwise under +; each evaluated as '[e]' (decimal value) and as 'e' (returned float64) and compared with exact big-integer decimal arithmetic rounded half-even to 34 digits; distinct = distinct exact results",
+		ID:          "C04",
+		Title:       "Decimal arithmetic is exact",
+		Rule:        "operand grid of 880 decimals (40 coefficients incl. 15/16/17/33/34-digit patterns and powers of two around 2^53/2^63/2^64, 11 exponents within +-30, both signs): every ordered pair under + - * / %, every left- and right-nested chain of three operations over a sub-grid, float64/int/int64 data values (short and long binary expansions, beyond 2^53) alone, against the same literal and pairwise under +; each evaluated as '[e]' (decimal value) and as 'e' (returned float64) and compared with exact big-integer decimal arithmetic rounded half-even to 34 digits; distinct = distinct exact results",
 		TrustedBase: []string{"internal/ref/dec.go (exact decimals on math/big)", "strconv.ParseFloat/FormatFloat (correctly rounded)"},
 		Assumptions: []string{"division and remainder by zero are not judged (statement silent)", "a remainder that needs more than 34 digits is out of claim and only counted"},
 		Run:         runC04,
